@@ -109,6 +109,9 @@ def iface_program(rng, env, rec):
             return rng.choice(env.sf)
         if k < 0.5:
             return arg(depth + 1) + arg(depth + 1)
+        if k < 0.58:
+            # an integer power (f*f is stored as f**2, so a product rule never sees it; seeded change C02-8)
+            return arg(depth + 1) ** rng.choice([2, 3, 3, 4])
         if k < 0.85:
             fs = [arg(depth + 1) for _ in range(rng.choice([2, 2, 3]))]
             if rng.random() < 0.5:
@@ -224,6 +227,16 @@ def fixed_corpus():
         (e2, 'jump', (f * g,), 'corpus:jump(f*g)'),
         (e2, 'avg', (f * g,), 'corpus:avg(f*g)'),
         (e2, 'jump', (c * f * g * h,), 'corpus:jump(c*f*g*h)'),
+        # integer powers under the interface operators (seeded change C02-8: [f**n] = n{f}**(n-1)[f] holds for n = 2 only)
+        (e2, 'jump', (f ** 3,), 'corpus:jump(f**3)'),
+        (e2, 'jump', (c * f ** 3 + g,), 'corpus:jump(c*f**3+g)'),
+        (e2, 'jump', (f ** 4 * g,), 'corpus:jump(f**4*g)'),
+        (e2, 'jump', (f ** 2,), 'corpus:jump(f**2)'),
+        (e2, 'avg', (f ** 3,), 'corpus:avg(f**3)'),
+        (e2, 'avg', (g * f ** 2,), 'corpus:avg(g*f**2)'),
+        (e2, 'minus', (f ** 3 * g,), 'corpus:minus(f**3*g)'),
+        (e2, 'plus', (2 * f ** 2,), 'corpus:plus(2*f**2)'),
+        (e2, 'Dn', (f ** 3,), 'corpus:Dn(f**3)'),
         (e2, 'grad', (h * C.dot(C.grad(G), C.grad(h)),), 'corpus:grad(h*dot(grad G,grad h))'),
         (e2, 'laplace', (f * F,), 'corpus:laplace(f*F)'),
         # shapes added after seeded change C02-1 (constant base, non constant exponent)
